@@ -32,6 +32,7 @@ type st struct {
 	// unsure[i]: the statement no longer determines whether ledger token i is live
 	unsure map[int]bool
 	covers []string
+	jwt    bool // access tokens are JWTs (model signer)
 }
 
 func (s *st) cover(label string) { s.covers = append(s.covers, label) }
@@ -64,6 +65,11 @@ func (s *st) authorize(client string, hybrid bool) int {
 		s.code = append(s.code, code)
 		// handed out by the authorization endpoint: not "obtained by redeeming the code"
 		s.l.Add(at, fosite.AccessToken, g, -1, false, atLife)
+	} else if s.jwt {
+		code, err := s.w.AuthorizeCodeSession(client, []string{"offline", "photos"}, nil, world.NewJWTSession("peter"))
+		zz.Assume(err == nil)
+		zz.Assume(code != "")
+		s.code = append(s.code, code)
 	} else {
 		code, _, err := s.w.AuthorizeCode(client, []string{"offline", "photos"}, nil)
 		zz.Assume(err == nil)
@@ -300,22 +306,38 @@ func (s *st) pickToken() (string, *world.Tok) {
 	return s.l.Toks[k].Val, s.l.Toks[k]
 }
 
-// symAdvance: symbolic duration in [0, 45d], 2s clear of the expiry instants of tokens issued at the start
+// symAdvance: symbolic duration in [0, 45d], 4s clear of the expiry instants of tokens issued at the start
 // (boundary behaviour is property C07's subject; the native replay clock has no sub-second fidelity).
 func symAdvance() time.Duration {
 	d := time.Duration(zz.Int("advance", 0, int64(45*24*time.Hour)))
 	for _, b := range []time.Duration{atLife, rtLife} {
-		zz.Assume(zz.Or(d < b-2*time.Second, d > b+2*time.Second))
+		zz.Assume(zz.Or(d < b-4*time.Second, d > b+4*time.Second))
 	}
-	zz.Note("clock advances keep 2s clear of token expiry instants (boundary behaviour: C07)")
+	zz.Note("clock advances keep 4s clear of token expiry instants (boundary behaviour: C07)")
 	return d
 }
 
-func (s *st) freeOp() {
+// caller returns the credentials of the next token-endpoint caller: symbolic strings, or (narrow) one of
+// three concrete callers: c1, c2, c1 with a wrong secret.
+func caller(narrow bool) (id, secret string) {
+	if !narrow {
+		return zz.String("caller", 3), zz.String("secret", 12)
+	}
+	switch zz.Choice("caller-index", 3) {
+	case 0:
+		return "c1", world.Secret1
+	case 1:
+		return "c2", world.Secret2
+	}
+	return "c1", "wrong-secret"
+}
+
+func (s *st) freeOp(tag string, narrow bool) {
 	switch zz.Choice("op", 4) {
 	case 0:
 		k := zz.Choice("code", len(s.code)+1)
-		s.present("free-redeem", k, zz.String("caller", 3), zz.String("secret", 12))
+		id, secret := caller(narrow)
+		s.present(tag, k, id, secret)
 	case 1:
 		val, t := s.pickToken()
 		s.refresh(val, t, s.client[zz.Choice("refresher", 2)])
@@ -328,12 +350,13 @@ func (s *st) freeOp() {
 	}
 }
 
-func run(hybrid bool, maxRefresh, freeOps int, extraGrant bool) {
+func run(hybrid, jwt bool, maxRefresh, freeOps int, extraGrant bool) {
+	narrow := freeOps > 1 // two free operations: the first operation and the final replay use concrete callers
 	rts := 1
-	if zz.Thorough() {
+	if zz.Thorough() && freeOps == 1 {
 		rts = zz.Choice("refresh-scopes", 3)
 	}
-	s := &st{w: world.NewX(world.XOptions{Hybrid: hybrid, Tweak: func(cfg *fosite.Config) {
+	s := &st{jwt: jwt, w: world.NewX(world.XOptions{Hybrid: hybrid, JWTAccess: jwt, Tweak: func(cfg *fosite.Config) {
 		switch rts {
 		case 0:
 			cfg.RefreshTokenScopes = []string{}
@@ -360,29 +383,47 @@ func run(hybrid bool, maxRefresh, freeOps int, extraGrant bool) {
 		s.killGen(g0, r.Gen)
 		s.addPair(g0, resp)
 	}
-	for k := 0; k < freeOps; k++ {
-		s.freeOp()
+	if freeOps > 1 {
+		s.freeOp("first-redeem", true)
 	}
+	s.freeOp("free-redeem", false)
 	// present the same code again: any caller
-	s.present("replay", g0, zz.String("caller", 3), zz.String("secret", 12))
+	id, secret := caller(narrow)
+	s.present("replay", g0, id, secret)
 }
 
 // ZZ_C01_code: code from the plain authorization code flow.
-// quick: <=1 refresh, 1 free operation; thorough: <=2 refreshes, 2 free operations, a third unredeemed grant,
-// three refresh-scope configurations.
+// quick: <=1 refresh, 1 free operation, a third unredeemed grant; thorough: <=2 refreshes, 1 free operation, a third unredeemed grant,
+// three refresh-scope configurations (two free operations: ZZ_C01_twoops_T).
 func ZZ_C01_code() {
 	if zz.Thorough() {
-		run(false, 2, 2, true)
+		run(false, false, 2, 1, true)
 	} else {
-		run(false, 1, 1, false)
+		run(false, false, 1, 1, true)
 	}
 }
 
 // ZZ_C01_hybrid: code from the OIDC hybrid flow (response_type "code token").
 func ZZ_C01_hybrid() {
 	if zz.Thorough() {
-		run(true, 2, 1, true)
+		run(true, false, 2, 1, true)
 	} else {
-		run(true, 1, 1, false)
+		run(true, false, 1, 1, false)
 	}
+}
+
+// ZZ_C01_jwt: plain code flow, access tokens are JWTs (oauth2.DefaultJWTStrategy over the model signer,
+// assumption A-sig), refresh tokens and codes stay HMAC.
+func ZZ_C01_jwt() {
+	if zz.Thorough() {
+		run(false, true, 2, 1, true)
+	} else {
+		run(false, true, 1, 1, false)
+	}
+}
+
+// ZZ_C01_twoops_T (thorough only): <=1 refresh, two free operations (the first with concrete callers), then the
+// replay by one of three concrete callers.
+func ZZ_C01_twoops_T() {
+	run(false, false, 1, 2, false)
 }
